@@ -318,6 +318,8 @@ class Gen:
             if o == "th":
                 t = r.choice([F(0.0), F(-1.0), F(2.5), F(5.0), F(-20.0), F(-1e30), F(1e30), ("f", 0xFFF0000000000000), INF,
                               NAN, I(0), I(3), F(round(r.uniform(-10, 10), 2)), F(0.1)])
+                if self.chance(0.03):
+                    t = I(r.choice([1, -1]) * r.choice([2 ** 1023, 2 ** 1024 - 2 ** 970 - 1, 2 ** 1024 - 2 ** 970, 2 ** 1024]))
                 self.emit("th", sc, t)
             else:
                 self.emit(o, sc)
@@ -327,6 +329,11 @@ class Gen:
         for _ in range(r.randint(1, 3)):
             tfm_ok = width <= (4 if protein else 7)
             method = r.choice([None, S("meme"), S("tfmpvalue") if tfm_ok else None])
+            if self.chance(0.03):
+                # float(int) at the edge of binary64: 2^1024 - 2^970 is the first int CPython refuses (OverflowError)
+                x = I(r.choice([1, -1]) * r.choice([2 ** 1023, 2 ** 1024 - 2 ** 970 - 1, 2 ** 1024 - 2 ** 970, 2 ** 1024, 2 ** 2000]))
+                self.emit(r.choice(["pv", "pv", "sv"]), s, x, r.choice([None, S("meme")]))
+                continue
             if self.chance(0.5):
                 x = r.choice([F(0.0), F(1.0), F(-3.5), F(4.25), F(8.0), F(100.0), F(-100.0), I(2), F(round(r.uniform(-12, 12), 3)),
                               F(0.1), F(1e-300)])
